@@ -753,7 +753,8 @@ def probe_cases(m: MDB) -> typing.List[typing.Tuple[dict, typing.List[dict]]]:
     return cases
 
 
-def run_namespace(label: str, spec: dict, seed: int, n_cases: int, repo: str, exe: typing.Optional[str], tier: str) -> dict:
+def run_namespace(label: str, spec: dict, seed: int, n_cases: int, repo: str, exe: typing.Optional[str], tier: str,
+                  fixed: typing.Optional[list] = None) -> dict:
     rng = random.Random(seed)
     res: dict = {'label': label, 'errors': [], 'cases': [], 'mismatch': [], 'oracle': [], 'known_instances': 0, 'stats': {}, 'model_ops': 0,
                  'models': [], 'witness': None, 'dsdl': spec['files']}
@@ -780,8 +781,11 @@ def run_namespace(label: str, spec: dict, seed: int, n_cases: int, repo: str, ex
         cases += probe_cases(m)
     per_type = max(1, n_cases // max(1, len(m.order)))
     for tid in range(len(m.order)):
-        for _ in range(per_type):
+        for _ in range(per_type if not fixed else 0):
             cases.append(g.case(tid, rng.choice([1, 2, 3, 5, 8])))
+    for case, exps in fixed or []:
+        cases.append((case, exps or [{'expect': None, 'tags': [], 'kind': 'set' if 'set' in o else 'ufb' if 'ufb' in o else 'ctor'}
+                                     for o in case['ops']]))
     for c, _ in cases[::3]:
         c['via_json'] = True
     # --- implementation
@@ -975,10 +979,14 @@ def main(chk: core.Check, replay: typing.Optional[str] = None) -> int:
 
     # namespaces
     specs: typing.List[typing.Tuple[str, dict, int]] = [('probe', dsdlgen.single(PROBE_FILES), 900 if quick else 12000)]
+    fixed_for: typing.Dict[str, list] = {}
     if replay:
         doc = json.load(open(replay))
         if doc.get('dsdl'):
             specs = [('probe', dsdlgen.single(PROBE_FILES), 50), ('replay', dsdlgen.single(doc['dsdl']), 600)]
+            fl = doc.get('failure') or {}
+            if fl.get('case'):
+                fixed_for['replay'] = [(fl['case'], fl.get('expectations'))]
     else:
         n_random = 3 if quick else 15
         for i in range(n_random):
@@ -986,7 +994,8 @@ def main(chk: core.Check, replay: typing.Optional[str] = None) -> int:
             specs.append(('r%d' % i, dsdlgen.generate(sub, n_types=12 if quick else 26, budget=600 if quick else 1200), 700 if quick else 10000))
     seeds = [chk.rng.getrandbits(32) for _ in specs]
     with concurrent.futures.ThreadPoolExecutor(max_workers=min(6, len(specs))) as ex:
-        results = list(ex.map(lambda a: run_namespace(a[0][0], a[0][1], a[1], a[0][2], repo, exe, chk.tier), zip(specs, seeds)))
+        results = list(ex.map(lambda a: run_namespace(a[0][0], a[0][1], a[1], a[0][2], repo, exe, chk.tier, fixed_for.get(a[0][0])),
+                              zip(specs, seeds)))
 
     # probe the known finding on the real classes
     witness = next((r['witness'] for r in results if r['label'] == 'probe'), None)
@@ -1039,6 +1048,14 @@ def main(chk: core.Check, replay: typing.Optional[str] = None) -> int:
     })
     chk.notes.append('quirk model in use: %s (witness uint4[<=3] = [200, 3] %s)' % (quirk, 'reproduces' if witness else 'does not reproduce'))
 
+    if replay:
+        for r in results:
+            if r['label'] == 'replay':
+                for e in (r['oracle'] + r['mismatch'])[:3]:
+                    print('replay: %s %s\n  implementation: %s\n  model:          %s' % (e.get('class') or e.get('what'), e.get('detail', ''),
+                                                                                   e.get('impl'), e.get('model')))
+                if not r['oracle'] and not r['mismatch']:
+                    print('replay: the case no longer fails (%d operations compared)' % r.get('model_ops', 0))
     if oracle:
         e = shrink_ops(oracle[0])
         chk.violation({'what': 'the real generated class violates the data-object contract: %s (%s)' % (e['class'], e.get('detail')),
